@@ -210,6 +210,12 @@ def run(chk):
             if rng.chance(1, 8):
                 body = body[:rng.below(len(body))]
             fh.append(body)
+    # dictionary-id fields of every width holding zero (flag set, "no dictionary") and small values
+    for d in range(256):
+        if d & 3:
+            dl = [0, 1, 2, 4][d & 3]
+            for did in (0, 1):
+                fh.append([0x28, 0xB5, 0x2F, 0xFD, d] + ([] if (d >> 5) & 1 else [rng.below(256)]) + list(did.to_bytes(dl, 'little')) + list(rng.bytes(9)))
     for m in (0x184D2A50, 0x184D2A5F, 0x184D2A4F, 0x184D2A60, 0xFD2FB527):
         fh.append(list(m.to_bytes(4, 'little')) + list(rng.bytes(6)))
         fh.append(list(m.to_bytes(4, 'little')) + list(rng.bytes(2)))
